@@ -560,8 +560,22 @@ class Evaluator:
             st.effects.append(App("eff:loop", (it, App("seq", inner)), e))
         return App("comp:" + kind, (body, it, App("conds", conds)), e)
 
+    def _static_iter(self, it, depth=0) -> bool:
+        if self.iter_items(it) is not None:
+            return True
+        return isinstance(it, App) and it.op == "phi" and depth < 3 and self._static_iter(it.args[1], depth + 1) and self._static_iter(it.args[2], depth + 1)
+
     def iter_items(self, it):
         """Statically known iteration items of a term, or None."""
+        if isinstance(it, App) and it.op == "mutated" and len(it.args) == 3 and it.args[1] in (Const("append"), Const("extend")):
+            base = self.iter_items(it.args[0])
+            if base is not None:
+                if it.args[1] == Const("append"):
+                    return base + [it.args[2]]
+                ext = self.iter_items(it.args[2])
+                if ext is not None:
+                    return base + ext
+            return None
         if isinstance(it, Const):
             if isinstance(it.v, (list, tuple)):
                 return [Const(x) for x in it.v]
@@ -1206,18 +1220,22 @@ class Evaluator:
             if g.op == "not":
                 body, orelse = orelse, body
             g = g.args[0]
+        return self._branch(g, s, st, fr, lambda a: self.exec_block(body, a, fr), lambda b: self.exec_block(orelse, b, fr))
+
+    def _branch(self, g, s, st, fr, run_a, run_b):
+        """Two-way split on the condition term g: run_a / run_b take a state and return (fall-through state, exits); results are merged."""
         base_e = len(st.effects)
         a = st.copy()
         a.conds.append(g)
         b = st.copy()
-        b.conds.append(App("not", (g,), s.test))
-        fa, ea = self.exec_block(body, a, fr)
-        fb, eb = self.exec_block(orelse, b, fr)
+        b.conds.append(App("not", (g,), getattr(s, "test", s)))
+        fa, ea = run_a(a)
+        fb, eb = run_b(b)
         exits = ea + eb
         if fa is None and fb is None:
             return None, exits
         if fa is None:
-            fb.effects.insert(base_e, App("eff:assume", (App("not", (g,), s.test),), s))
+            fb.effects.insert(base_e, App("eff:assume", (App("not", (g,), getattr(s, "test", s)),), s))
             return fb, exits
         if fb is None:
             fa.effects.insert(base_e, App("eff:assume", (g,), s))
@@ -1269,7 +1287,15 @@ class Evaluator:
 
     def s_For(self, s, st, fr):
         it = self.eval_expr(s.iter, st, fr)
+        return self._for_over(s, it, st, fr)
+
+    def _for_over(self, s, it, st, fr, depth=0):
         items = self.iter_items(it)
+        if items is None and isinstance(it, App) and it.op == "phi" and depth < 3 and not s.orelse:
+            # a list built conditionally and then iterated: `for x in (A if g else B)` is `if g: for x in A else: for x in B`
+            g, xa, xb = it.args
+            if self._static_iter(xa, depth) and self._static_iter(xb, depth):
+                return self._branch(g, s, st, fr, lambda a: self._for_over(s, xa, a, fr, depth + 1), lambda b: self._for_over(s, xb, b, fr, depth + 1))
         if items is not None and len(items) <= 64:
             exits = []
             cur = st
